@@ -80,11 +80,11 @@ def replay(prop, path):
 def wp_cfg(name, spec, g, remote, serialised, invs='Durable NoPhantom AckedVisible AckedInView',
            props='WriteEventAfterState ReplEventAfterState ReturnAfterAll'):
     return (name, '''SPECIFICATION %s
-CONSTANTS G = {%s}  Remote <- Remote%d  SerialisedPersist = %s
+CONSTANTS G = {%s}  Remote <- Remote%d  RemotePar <- RemotePar%d  SerialisedPersist = %s
 INVARIANTS %s
 %s
 CHECK_DEADLOCK FALSE
-''' % (spec, ', '.join(str(i) for i in range(1, g + 1)), remote, 'TRUE' if serialised else 'FALSE', invs,
+''' % (spec, ', '.join(str(i) for i in range(1, g + 1)), remote, remote, 'TRUE' if serialised else 'FALSE', invs,
        ('PROPERTIES ' + props) if props else ''))
 
 
